@@ -353,16 +353,78 @@ func c18TrailerDiff(who string, want, got http.Header) string {
 
 // ---- cases ----------------------------------------------------------------------------------
 
+// c18Rej describes a history of early-rejected uploads that precedes the (valid) message of a
+// case on the SAME connection: N requests that the server answers before (and without) reading
+// their body, while the client is still uploading it. Afterwards the message of the case is
+// exchanged; it is judged like every clean exchange.
+type c18Rej struct {
+	// 0: the decoded field section exceeds Server.MaxHeaderBytes (100 one-byte fields, each
+	//    accounted with 32 bytes of overhead) although the HEADERS frame on the wire is below it
+	// 1: the HEADERS frame itself is longer than Server.MaxHeaderBytes (one 8 kB field value)
+	// 2: the handler answers 400 and returns without touching Request.Body
+	// 3: the handler reads the first body byte, answers 413 and returns
+	Kind int `json:"k,omitempty"`
+	N    int `json:"n"`             // number of rejected uploads (1..3)
+	Body int `json:"b"`             // bytes of request body each of them carries
+	Cfg  int `json:"cfg,omitempty"` // server quic.Config, see c18RejConfig
+	Par  int `json:"par,omitempty"` // 0 one after the other, 1 the N rejected uploads concurrently
+}
+
+const c18RejMaxHeaderBytes = 2048
+
+var c18RejKinds = []string{"431-decoded-size", "431-frame-length", "handler-400-unread", "handler-413-first-byte"}
+var c18RejCfgs = []string{"default-windows(512k/768k)", "windows(16k/24k)", "max-incoming-streams=N"}
+
+// bodies of the rejected uploads per server configuration: around and above the stream and the
+// connection receive window (cfg 0, 1); anything, the empty body included, for the stream slots (cfg 2)
+var c18RejBodies = [][]int{
+	{393216, 524288, 786432, 900000},
+	{1199, 12288, 16384, 24576, 70000},
+	{0, 1199, 70000},
+}
+
+func (r c18Rej) String() string {
+	return fmt.Sprintf("early-reject[%s x%d body=%d %s par=%d]", c18RejKinds[r.Kind], r.N, r.Body, c18RejCfgs[r.Cfg], r.Par)
+}
+
+// c18RejCases enumerates the early-rejection histories x the valid messages that follow them.
+func c18RejCases(followUps []c18Msg, seed uint64) []c18Case {
+	var out []c18Case
+	for _, real := range []bool{false, true} {
+		for cfg := range c18RejCfgs {
+			for n := 1; n <= 3; n++ {
+				for kind := range c18RejKinds {
+					for _, b := range c18RejBodies[cfg] {
+						for par := 0; par < 2; par++ {
+							if par == 1 && n == 1 {
+								continue
+							}
+							for _, f := range followUps {
+								out = append(out, c18Case{Msg: f, Real: real, Seed: seed, Rej: &c18Rej{Kind: kind, N: n, Body: b, Cfg: cfg, Par: par}})
+							}
+						}
+					}
+				}
+			}
+		}
+	}
+	return out
+}
+
 // c18Case is one execution of the E2 parts.
 type c18Case struct {
 	Msg    c18Msg       `json:"msg"`
 	Real   bool         `json:"real,omitempty"` // Server.ServeListener instead of the harness accept loop
 	Seed   uint64       `json:"seed"`
 	Faults sim.FaultMap `json:"faults,omitempty"`
+	Rej    *c18Rej      `json:"rej,omitempty"` // early-rejected uploads on the same connection before Msg
 }
 
 func (c c18Case) String() string {
 	s := c.Msg.String()
+	if c.Rej != nil {
+		s = c.Rej.String() + " then " + s
+	}
 	if c.Real {
 		s += " [Server.ServeListener]"
 	}
